@@ -4,7 +4,11 @@ Proof step (Props/C09.vo) + tie: adversarial literals x contexts x carriers, eac
 marker; the Coq model's predicted output line (Run/C09.v, evaluated by coqc) must equal the line the
 real compiler emitted.  Independently of the model, an oracle decodes the real line (say: raw text,
 JSON: json.loads, NBT: SNBT unquote) and compares it with the value of the source literal: a mismatch
-there is a concrete failing input."""
+there is a concrete failing input.
+Strengthening round 3: literals that are EXACTLY a spelling the statement dispatcher compares token text with (`::`, `=`, `matches`,
+`run`, `()` ... read from the tree under test), alone and with one leading / trailing blank, in every carrier incl. the literal as
+token 1 of the statement (`me <lit>`) and `function <lit>`; such literals hold no marker - the output line is located with a twin
+program whose literal is the marker."""
 from __future__ import annotations
 
 import ast
